@@ -44,6 +44,7 @@ def cases(ctx):
         if ctx.mine(j):
             yield 'model', {'model': name}
     n = 1500 if q else 20000
+    ctx.new_phase()
     for i in range(n):
         if not ctx.time_left():
             break
